@@ -16,6 +16,7 @@ def skeletons(shape, maxlen, maxitems, maxtotal, namesets):
                     l = list(lens) + [-1] * (3 - n)
                     out.append((l[0], l[1], l[2], 0))
     else:
+        out.append((-1, -1, -1, 0))  # an object with no field set
         for ns in namesets:
             for l1 in range(0, maxlen + 1):
                 out.append((l1, -1, -1, ns))
